@@ -20,7 +20,7 @@ ASSUME = [
     "9 probe texts: a task that does not fit under its container's limit, plain ASAP, project ALAP, two scenarios with limits, zoned resources, 15-min resolution with sub-slot efforts, a text that is rejected, a text with own JSON+CSV reports, a nested-container text with gaps",
     "operation alphabet: parse(i) for each probe, reschedule(last), reports(last), engine(i) = scriptplan.cli.main.run_scriptplan on probe i for three probes, abort(i) = parse+schedule of probe i killed by an injected MemoryError at its second task placement (a failing earlier call); all histories up to depth 2 (quick) / 3 (thorough), each in one fresh interpreter",
     "the clock macros ${now}/${today} and Project 'now' are excluded (they are defined to depend on the wall clock)",
-    "hash seeds {0,1,2,3,VERIF_SEED} in fresh processes; pure-Python and compiled extensions are compared in C13",
+    "hash seeds 0..7 (thorough: 0..31) and VERIF_SEED in fresh processes, on the probes plus four hash-order probes (tied alternatives, rotating alternative pools, a seven-member team, limited groups); pure-Python and compiled extensions are compared in C13",
 ]
 
 
@@ -52,6 +52,33 @@ def probes():
                                 "tasks": [{"id": "g", "limits": {"dailymax": "2h"}, "children": [T("a", 240, prio=900), T("x", 120, sched="alap", end="2025-01-07-17:00")]},
                                           T("z", 60, limits={"weeklymax": "1h"}), T("z2", 600, "r1", limits={"dailymax": "1h"})], "reports": [rep]}))
     return texts
+
+
+def hash_probes():
+    """Projects in which an iteration over a set or dict of names would decide something: several tied alternatives,
+    large teams, many equal-priority tasks, several groups and reports - parsed under every hash seed only (they are
+    not part of the history alphabet). Names are chosen with no common prefix so that their hashes are unrelated."""
+    names = ["dev", "zed", "amy", "bob", "kim", "uwe", "pat"]
+    T = lambda i, m, r, **kw: {"id": i, "effort": m, "alloc": [r] if isinstance(r, str) else list(r), **kw}  # noqa: E731
+    rep = 'taskreport rep "rep" {\n  formats json, csv\n  columns id, name, start, end\n}'
+    out = []
+    # primary busy, all alternatives tie
+    out.append(render.render({"resources": [{"id": n} for n in names],
+                              "tasks": [T("hold", 600, "dev", prio=900), {"id": "b", "effort": 300, "alloc": ["dev"], "alt": names[1:]},
+                                        T("c", 200, "amy"), T("d", 200, "zed"), T("e", 200, "pat")], "reports": [rep]}))
+    # two allocations with alternatives competing for the same pool, equal priorities, declared in 'random' name order
+    out.append(render.render({"resources": [{"id": n} for n in names],
+                              "tasks": [{"id": f"t{n}", "effort": 240, "alloc": [names[(k + 1) % 7]], "alt": [x for x in names if x != names[(k + 1) % 7]]} for k, n in enumerate(names)],
+                              "reports": [rep]}))
+    # a seven-member team, one member partly on leave, plus single tasks on each member with equal priority
+    out.append(render.render({"resources": [{"id": n, **({"leaves": [{"k": "leaves", "type": "annual", "a": "2025-01-07"}]} if n == "kim" else {})} for n in names],
+                              "tasks": [T("team", 600, names)] + [T(f"s{n}", 120, n) for n in reversed(names)], "reports": [rep]}))
+    # groups with limits, members named so that group order and member order differ under different hash orders
+    out.append(render.render({"resources": [{"id": "gx", "limits": {"dailymax": "6h"}, "children": [{"id": "zed"}, {"id": "amy"}]},
+                                            {"id": "ga", "limits": {"weeklymax": "20h"}, "children": [{"id": "bob"}, {"id": "kim"}]}],
+                              "tasks": [T("p", 900, ["zed", "amy"]), T("q", 900, ["bob", "kim"]), T("r", 500, "amy"), T("s", 500, "kim"),
+                                        {"id": "m", "milestone": True, "deps": ["p", "q", "r", "s"]}], "reports": [rep]}))
+    return out
 
 
 ENGINE_PROBES = (0, 5, 6)
@@ -90,9 +117,10 @@ def run(ctx):
     st = Stats()
     pool = ctx.pool("rebuilt")
     depth = 2 if ctx.tier == "quick" else 3
-    seeds = sorted({0, 1, 2, 3, ctx.seed})
+    seeds = sorted({0, 1, 2, 3, 4, 5, 6, 7, ctx.seed}) if ctx.tier == "quick" else sorted(set(range(32)) | {ctx.seed})
+    allp = probes() + hash_probes()
     # baseline: each probe alone in its own fresh process (seed 0), and under the other hash seeds
-    base_jobs = [("rebuilt", s, [["parse", i]]) for s in seeds for i in range(len(probes()))]
+    base_jobs = [("rebuilt", s, [["parse", i]]) for s in seeds for i in range(len(allp))]
     base_res = pool.map("mc.props.c12:run_child", base_jobs, timeout=900, chunk=1)
     baseline = {}
     for (mode, s, ops), r in zip(base_jobs, base_res):
@@ -112,9 +140,9 @@ def run(ctx):
         if sig != baseline[i]:
             st.by_clause["hashseed"] = st.by_clause.get("hashseed", 0) + 1
             ctx.violation("hashseed", f"probe{i}-seed{s}", {"detail": f"probe {i}: observation under PYTHONHASHSEED={s} ({sig}) differs from seed 0 ({baseline[i]})",
-                                                           "ops": ops, "seed": s, "tjp": probes()[i]})
+                                                           "ops": ops, "seed": s, "tjp": allp[i]})
         # the same probe parsed a second time in that same fresh process must also agree
-        if r["final"][str(i)] != baseline[i]:
+        if str(i) in r["final"] and r["final"][str(i)] != baseline[i]:
             st.by_clause["repeat"] = st.by_clause.get("repeat", 0) + 1
             ctx.violation("repeat", f"probe{i}-seed{s}", {"detail": f"probe {i}: second parse in the same process gives {r['final'][str(i)]}, first {baseline[i]}", "ops": ops,
                                                          "seed": s, "tjp": probes()[i]})
